@@ -44,6 +44,9 @@ func c08Topologies(thorough bool) []*sysgen.Spec {
 		s := sysgen.Spec{Name: "hybrid-2P2t-4E", Packages: 1, CoresPerNode: 6, Threads: 1, ClusterCores: 2, L2PerCluster: true, L3: "package", ECores: []int{2, 3, 4, 5}}
 		add(s)
 	}
+	// last-level caches that split every package into two groups of two cores (a group is neither a core, a die nor a
+	// package): the cache-group stage runs with groups in two packages
+	add(sysgen.Spec{Name: "2p-2n-2c-l3node", Packages: 2, NodesPerDie: 2, CoresPerNode: 2, Threads: 1, L3: "node"})
 	// hybrid and clustered across two packages: the cluster stage runs with candidate sets that span packages
 	add(sysgen.Spec{Name: "2p-hybrid-clusters", Packages: 2, CoresPerNode: 4, Threads: 1, ClusterCores: 2, L2PerCluster: true, L3: "package", ECores: []int{2, 3, 6, 7}})
 	{
